@@ -23,7 +23,7 @@ func init() {
 			"(R-LEAFTYPES) dumpLeafNode has a case for every static type of value the parser puts into constant nodes (string, []string, []int64; int64 and bool through the default) and prints it in a form the prefix lexer/parser accepts: a string between two double quotes with nothing else added, lists between ( and ) with elements separated by a space rune, integers in base 10, variables by their name; " +
 			"(R-IFLAYOUT) the positions Dump selects among the program-ordered children of an `if` node (condition, true branch, false branch) are consistent with the order in which calAndSetNodes emits the four children (condition, true branch, fi, false branch): selecting position k must yield source child 0, 1, 2; (R-DUMPSKIP) the child enumeration excludes event nodes (as in C12); (R-DUMPROOT) the printed tree starts at the node whose parent index is -1 and every non-leaf is printed as ( name children… ). " +
 			"(R-EVREMAP) calAndSetEventNode rebuilds node array and parent table entry by entry in step (an event node mirrors its real node), records every appended node's position in the index table keyed by its original index, and relabels scIdx/parents through the right table under the -1 guards: the parent table Dump reads in event mode is an exact relabelling. " +
-			"(R-FMTDATA) in every fmt formatting call of the package the format string is built from constants and integers only, program text is an operand; (R-INTBASE) every integer parse of the lexer/parser reads base 10. Constants of Go types the lexer cannot produce (ConstantMap floats, maps folded from user operators) are outside the property's literal domain. NOT decided: that the rebuilt text equals the program on every binding (fast-operator layout, folded constants), idempotence of dump/compile.",
+			"(R-FMTDATA) in every fmt formatting call of the package the format string is built from constants and integers only, program text is an operand; (R-INTBASE) every integer parse of the lexer/parser reads base 10. Constants of Go types the lexer cannot produce (ConstantMap floats, maps folded from user operators) are outside the property's literal domain. NOT decided: that the rebuilt text equals the program on every binding (fast-operator layout, folded constants), idempotence of dump/compile. Round 2: R-IFLAYOUT — the selection among the children of an `if` node is what the child lookup answers with; R-KIND and R-ORDER shared.",
 		Run:       runC13,
 		Witnesses: append(append(append(append([]Witness{}, delWitnessesC13...), piecewiseListWitnesses...), listValuePhiWitnesses...), c13Witnesses...),
 	})
